@@ -115,6 +115,8 @@ class ScriptedCoupling:
         mean_l = law["m0"] * 2.0 ** (-law["alpha"] * level)
         sd_l = law["s0"] * 2.0 ** (-0.5 * law["beta"] * level)
         fine = coarse + mean_l + sd_l * z2
+        if level in law.get("identical_levels", ()) and level > 0:
+            fine = coarse  # fine and coarse payoffs coincide on every path of this level: correction exactly 0
         if level == 0:
             coarse = 0.0
         led.samples.setdefault(level, []).append((fine, coarse))
